@@ -59,28 +59,30 @@ def _param(name, v):
 
 
 def target_json(kind):
-    L = {n: v for n, v, _ in LEAVES[kind]}
+    """the leaf parameters are referenced by id: they are created first, holding the state at which the
+    target is to be evaluated, so that every derived object (CatParameter, TransformedParameter, ...) is
+    constructed from that state"""
     D = 'Distribution'
     if kind == 'normal':
-        ds = [{'id': 'prior', 'type': D, 'distribution': 'torch.distributions.Normal', 'x': _param('x', L['x']),
+        ds = [{'id': 'prior', 'type': D, 'distribution': 'torch.distributions.Normal', 'x': 'x',
                'parameters': {'loc': 0.25, 'scale': 1.5}}]
     elif kind == 'gamma':
-        ds = [{'id': 'pr', 'type': D, 'distribution': 'torch.distributions.Gamma', 'x': _param('r', L['r']),
+        ds = [{'id': 'pr', 'type': D, 'distribution': 'torch.distributions.Gamma', 'x': 'r',
                'parameters': {'concentration': 2.0, 'rate': 1.5}},
-              {'id': 'px', 'type': D, 'distribution': 'torch.distributions.Normal', 'x': _param('x', L['x']),
+              {'id': 'px', 'type': D, 'distribution': 'torch.distributions.Normal', 'x': 'x',
                'parameters': {'loc': 0.25, 'scale': 1.5}}]
     elif kind == 'cat':
         # (numeric distribution parameters are not accepted together with a list-valued x: Parameter objects)
         ds = [{'id': 'prior', 'type': D, 'distribution': 'torch.distributions.Normal',
-               'x': [_param('p', L['p']), _param('q', L['q'])],
+               'x': ['p', 'q'],
                'parameters': {'loc': _param('loc', [0.25]), 'scale': _param('scale', [1.5])}}]
     elif kind == 'exptr':
         ds = [{'id': 'prior', 'type': D, 'distribution': 'torch.distributions.Exponential',
                'x': {'id': 'pos', 'type': 'TransformedParameter', 'transform': 'torch.distributions.ExpTransform',
-                     'x': _param('z', L['z'])}, 'parameters': {'rate': 1.5}},
+                     'x': 'z'}, 'parameters': {'rate': 1.5}},
               'pos']
     elif kind == 'dirichlet':
-        ds = [{'id': 'prior', 'type': D, 'distribution': 'torch.distributions.Dirichlet', 'x': _param('x', L['x']),
+        ds = [{'id': 'prior', 'type': D, 'distribution': 'torch.distributions.Dirichlet', 'x': 'x',
                'parameters': {'concentration': [2.0, 3.0, 1.5]}}]
     else:
         raise KeyError(kind)
@@ -125,33 +127,37 @@ def make_uf_target(params, sym):
     return Target(params)
 
 
-def make_target(kind, sym):
-    """fresh model objects: (joint, {leaf id: Parameter})"""
+def state_tensor(v, sym):
+    if sym:
+        return from_ids(torch.tensor(v, dtype=torch.int64))
+    return torch.tensor(v, dtype=torch.float64)
+
+
+def make_target(kind, sym, state=None):
+    """new model objects built FROM the given state: (joint, {leaf id: Parameter})"""
     import torchtree.distributions.distributions  # noqa: F401  (class registration)
     import torchtree.distributions.joint_distribution  # noqa: F401
     from torchtree.core.parameter import Parameter
     from torchtree.core.utils import process_object
 
+    leaves = {}
+    for n, v, _ in LEAVES[kind]:
+        leaves[n] = Parameter(n, state_tensor(state[n], sym) if state is not None else torch.tensor(v, dtype=torch.float64))
     if kind.startswith('uf'):
-        ps = [Parameter(n, torch.tensor(v, dtype=torch.float64)) for n, v, _ in LEAVES[kind]]
-        return make_uf_target(ps, sym), {p.id: p for p in ps}
-    dic = {}
+        return make_uf_target(list(leaves.values()), sym), leaves
+    dic = dict(leaves)
     joint = process_object(target_json(kind), dic)
-    return joint, {n: dic[n] for n, _, _ in LEAVES[kind]}
+    return joint, leaves
 
 
 def set_state(leaves, state, sym):
     for n, p in leaves.items():
-        if sym:
-            p.tensor = from_ids(torch.tensor(state[n], dtype=torch.int64))
-        else:
-            p.tensor = torch.tensor(state[n], dtype=torch.float64)
+        p.tensor = state_tensor(state[n], sym)
 
 
 def fresh_eval(kind, state, sym=True, nograd=True):
     """the target evaluated FROM SCRATCH: new model objects holding the given state"""
-    joint, leaves = make_target(kind, sym)
-    set_state(leaves, state, sym)
+    joint, leaves = make_target(kind, sym, state)
     if nograd:
         with torch.no_grad():
             v = joint()
@@ -321,7 +327,6 @@ def execute(spec, vals, sym, hooks=None):
     from torchtree.inference.mcmc.mcmc import MCMC
 
     kind = spec['target']
-    joint, leaves = make_target(kind, sym)
     d = cur().dag if sym else None
     init = {}
     for name, default, dom in LEAVES[kind]:
@@ -338,7 +343,7 @@ def execute(spec, vals, sym, hooks=None):
             init[name] = ids
         else:
             init[name] = free + ([1.0 - sum(free)] if dom == 'simplex' else [])
-    set_state(leaves, init, sym)
+    joint, leaves = make_target(kind, sym, init)
     dic = dict(leaves)
     ops = []
     for k, (okind, pids) in enumerate(spec['ops']):
@@ -954,7 +959,10 @@ def chain_task(task, tr):
             tr.inconc(f'{label}: harness: {rec["stub_error"]}')
             continue
         if rec['crash']:
-            sig = 'MCMC.run:crash:' + rec['crash'].split(':')[0]
+            if 'ZeroDivisionError' in rec['crash'] and 'op._accept' in rec['crash']:
+                sig = 'MCMC.run:final-summary-divides-by-zero-when-an-operator-was-never-selected'
+            else:
+                sig = 'MCMC.run:raises-' + rec['crash'].split(' ')[0]
             if sig not in reported:
                 reported.add(sig)
                 ok, detail = replay_chain(spec, run.W)
